@@ -243,6 +243,16 @@ def run_step(eng, p):
                 "hash-%d-v%d" % (pid, w.ver_old[pid]),
                 SArr([SBool(poly_bit(pid, w.ver_old[pid], i))
                       for i in range(N)], bool))
+    if p.get("reset"):
+        # the real Filter.reset() (RTDCBase.reset_filter) from this state;
+        # afterwards the user edits settings and manual exclusions again
+        with quiet():
+            filt.reset()
+        eng.prove(z3.And([tobool(m) if isinstance(m, (SBool, bool))
+                          else z3.BoolVal(bool(m))
+                          for m in list(filt.manual)] or [z3.BoolVal(True)]),
+                  "reset: manual exclusions cleared")
+        filt.manual = SArr(w.manual, bool)
     # ---------------- the step: arbitrary current settings, real update()
     ds.config = TopCfg(filtering=w.cfg(w.cur))
     with quiet():
@@ -414,6 +424,17 @@ def cases(tier, seed):
                     N=N, fresh=False, has_old=list(has_old),
                     has_cur=list(has_cur), box_cached=list(bc), poly_old=[],
                     poly_cur=[], poly_mod=[], poly_cached=[])))
+    # reset between two applications (ranges / polygon set again afterwards)
+    for has_old, has_cur, po, pc in (
+            ([True, False], [True, False], [], []),
+            ([True, True], [False, True], [], []),
+            ([True, False], [True, False], [5], [5]),
+            ([False, False], [True, True], [5], [])):
+        out.append(("reset old=%s cur=%s polys %s -> %s" % (
+            has_old, has_cur, po, pc), dict(
+            N=N, fresh=False, has_old=has_old, has_cur=has_cur,
+            box_cached=has_old, poly_old=po, poly_cur=pc, poly_mod=[],
+            poly_cached=po, reset=True)))
     # previous flags arbitrary / event limit arbitrary (simple ranges)
     for has_old, has_cur in (([True, False], [True, False]),
                              ([True, False], [False, False]),
@@ -594,6 +615,8 @@ def _replay(params, v, lazy):
                 if pre_has != list(p["has_old"]):
                     steps.append(("pre", pre_has, p["poly_old"]))
                 steps.append(("old", p["has_old"], p["poly_old"]))
+            if p.get("reset"):
+                steps.append(("reset", [], []))
             steps.append(("cur", p["has_cur"], p["poly_cur"]))
             observe = str(v.get("what", "")).startswith("invariant")
             if observe:
@@ -602,6 +625,10 @@ def _replay(params, v, lazy):
                 steps.append(("obs", p["has_cur"], []))
             for tag, has, polys in steps:
                 t = "old" if tag == "pre" else tag
+                if tag == "reset":
+                    ds.reset_filter()
+                    ds.filter.manual[:] = manual
+                    continue
                 if tag == "obs":
                     cfg = ds.config["filtering"]
                     cfg["enable filters"] = True
